@@ -180,8 +180,9 @@ def run(rep, tier, seed):
             sched = []
             for _ in range(rnd.randint(1, 8)):
                 sched.append((rnd.choice([1, 7, 100, 4095, 4096, 4097, 8192, 10000]), rnd.choice([0, 0, 0.001, 0.02])))
-            pipes.append({"id": "p%d" % i, "src": script("stdin", base, calls), "calls": calls, "base": base, "content": data,
-                          "how": "pipe", "sched": sched})
+            by_path = (i % 4 == 3)       # the same pipe, reached through open("/dev/stdin")
+            pipes.append({"id": "p%d" % i, "src": script('open("/dev/stdin")' if by_path else "stdin", base, calls), "calls": calls, "base": base,
+                          "content": data, "how": "pipe-by-path" if by_path else "pipe", "sched": sched})
 
         # text asked of input that is not text (a stray byte, a sequence cut short at the end, an overlong form, a surrogate)
         odd = [b"abc\xff def\n", b"caf\xc3\xa9 \xe2\x82", b"x\xc0\x80y\n", b"ok\n\xed\xa0\x80\n", b"\xf5\x80\x80\x80", b"plain ascii\n"]
@@ -252,12 +253,38 @@ def run(rep, tier, seed):
                                       "writes": writes if mode != "r" else [], "flush": flush, "path": path, "src": src})
                         n += 1
 
+        # several writers open at the same time, written to in turns, the program ending in every way: each file holds what
+        # was written to it
+        for ending in ("end", "exit0", "exit3", "rterror"):
+            for nfiles in (2, 3):
+                for order in (0, 1):
+                    paths = [os.path.join(d, "mw%d_%d" % (n, k)) for k in range(nfiles)]
+                    mds = ["w", "x", "a"][:nfiles] if order == 0 else ["a", "w", "x"][:nfiles]
+                    src = "".join('let f%d = open("%s", "%s");\n' % (k, paths[k], mds[k]) for k in range(nfiles))
+                    writes = [[] for _ in range(nfiles)]
+                    for r in range(3):
+                        for k in range(nfiles):
+                            w = ("f%d-r%d;" % (k, r)).encode() * (1 if r != 1 else 300)
+                            writes[k].append(w)
+                            src += 'write(f%d, "%s");\n' % (k, w.decode())
+                    src += 'eprintln("OPENED");\n' + {"end": "", "exit0": "exit(0);\n", "exit3": "exit(3);\n", "rterror": "let z = 1 / 0;\n"}[ending]
+                    for k in range(nfiles):
+                        modes.append({"id": "m%d" % n, "mode": mds[k], "existed": False, "before": b"", "ending": ending + " several-writers",
+                                      "writes": writes[k], "flush": False, "path": paths[k], "src": src if k == 0 else None, "shared": "m%d" % (n - k)})
+                        n += 1
+
         def runmode(m):
+            if m["src"] is None:
+                return
             p = subprocess.run([core.P2SH, "-c", m["src"]], stdin=subprocess.DEVNULL, stdout=subprocess.PIPE, stderr=subprocess.PIPE, timeout=180)
             m["stderr"] = p.stderr.decode("utf8", "replace")
             m["rc"] = p.returncode
         with ThreadPoolExecutor(max_workers=8) as ex:
             list(ex.map(runmode, modes))
+        byid = {m["id"]: m for m in modes}
+        for m in modes:
+            if m["src"] is None:        # one program, several files: the run is recorded with the first of them
+                m["stderr"], m["rc"], m["src"] = byid[m["shared"]]["stderr"], byid[m["shared"]]["rc"], byid[m["shared"]]["src"]
         for m in modes:
             opened = "err" if "OPEN-ERR" in m["stderr"] else ("ok" if "OPENED" in m["stderr"] else "crash")
             exists = os.path.exists(m["path"])
